@@ -224,7 +224,20 @@ package phase2
 
 // exchange (C01): the two sanity panics fire exactly when the caller hands over the wrong kind of edge; the rest needs
 // a root node and what setCutValues needs
+// (C03) The pivot re-ranks exactly one side of the cut: every node in the tail component of the leaving edge e (as
+// told by the lim/low numbering of the tree before the pivot) moves up by the slack of the entering edge f, every node in
+// the head component keeps its layer. This is what keeps the layering feasible across a pivot; the theorem itself
+// (feasible before => feasible after, given f is a minimum-slack edge across the cut) is a paper argument.
 //@ func networkSimplexProcessor.exchange
+//@   requires[shift|C03] p != nil && g != nil && e != nil && f != nil && e.IsInSpanningTree && !f.IsInSpanningTree
+//@       && e.From != nil && e.To != nil && f.From != nil && f.To != nil && len(g.Nodes) >= 1 && p.lim != nil && p.low != nil && edgeListOK(g)
+//@       && (forall i int :: 0 <= i && i < len(g.Nodes) ==> g.Nodes[i] != nil)
+//@       && (forall i int, j int :: 0 <= i && i < j && j < len(g.Nodes) ==> g.Nodes[i] != g.Nodes[j])
+//@   ensures[shift|C03] forall j int :: 0 <= j && j < len(g.Nodes) ==> g.Nodes[j].Layer ==
+//@       old(g.Nodes[j].Layer) - ((old(p.inHeadComponent(g.Nodes[j], e)) || old(f.To.Layer - f.From.Layer - f.Delta) <= 0) ? 0 : old(f.To.Layer - f.From.Layer - f.Delta))
+//@   loop range(g.Nodes)#1 index a
+//@     invariant[|C03] forall j int :: 0 <= j && j < a ==> g.Nodes[j].Layer == old(g.Nodes[j].Layer) - (old(p.inHeadComponent(g.Nodes[j], e)) ? 0 : d)
+//@     invariant[|C03] forall j int :: a <= j && j < len(g.Nodes) ==> g.Nodes[j].Layer == old(g.Nodes[j].Layer)
 //@   requires[|C01] p != nil && g != nil && e != nil && f != nil && e.IsInSpanningTree && !f.IsInSpanningTree
 //@   requires[|C01] len(g.Nodes) >= 1 && p.lim != nil && p.low != nil && edgeListOK(g)
 
